@@ -138,7 +138,8 @@ class NameDatabase:
         if id(value) in self.names:
             return self.names[id(value)]
         name = getattr(value, "__name__", self.default_name)
-        if not re.match(string=name, pattern=r"[a-zA-Z_][a-zA-Z0-9_]+"):
+        if not re.fullmatch(string=name, pattern=r"[a-zA-Z_][a-zA-Z0-9_]*"):
+            # Not an identifier, e.g. a class created with the name "Vec[int]"
             name = self.default_name
         name = self.gensym(name)
         self.variables[name] = value
